@@ -8,21 +8,31 @@ REGISTRATION = {
                  "kill injection at every store syscall of the real code",
     "category": "proof",
     "text": "Kernel-checked theorems over a Lean model in which every store operation (blob upload, create, copy, "
-            "delete, pull from an honest registry) is its ordered list of primitive file-system effects computed "
-            "against the evolving store: for EVERY store satisfying the invariant, every operation and every crash "
-            "prefix of its effect list (last data write cut at any byte), the start-up sequence of Serve leaves "
-            "every readable manifest with all layers present and hashing to their names, and leaves uninvolved "
-            "names and their blobs untouched; repeating the operation yields the readable manifests of an "
-            "uninterrupted run when no manifest was torn before. The effect lists are tied to the code by "
-            "comparing them with the real syscall trace of each operation (ptrace, canonicalised to the same "
-            "alphabet), and crash points are enumerated on the REAL code by killing a child process at the entry "
-            "of every store syscall, running the real start-up sequence, re-hashing everything readable "
-            "manifests name, and re-running the operation.",
+            "delete, pull from an honest registry incl. resume from part records) is its ordered list of primitive "
+            "file-system effects computed against the evolving store, for both variants of the code (manifests / part "
+            "records written in place or by temp+rename; the check detects the tree's variant from the real trace) and "
+            "both start-up configurations (prune / OLLAMA_NOPRUNE): for EVERY store satisfying the invariant, every "
+            "operation and every crash prefix of its effect list (last data write cut at any byte), the start-up "
+            "sequence leaves every readable manifest with all layers present and hashing to their names, and leaves "
+            "uninvolved names and their blobs untouched (crash_safe). For the tree's current variant (atomic manifest "
+            "writes) additionally: after any crash every manifest file is the old or the completed one, no manifest is "
+            "ever torn, a replaced model stays resolvable; repeating upload/copy/delete yields exactly the manifest "
+            "files of an uninterrupted run, and the repeated pull SUCCEEDS and converges (prune configuration, "
+            "registry serves the layers). The effect lists are tied to the code by comparing them with the real "
+            "syscall trace of each operation (ptrace, canonicalised to the same alphabet), the model's crash states "
+            "and rerun outcomes with the real ones, and crash points are enumerated on the REAL code by killing a "
+            "child process at the entry of every store syscall (single-part pulls, create, copy, delete, upload under "
+            "both configurations; a 2-part pull of a >100 MB layer with parts completing out of order under "
+            "OLLAMA_NOPRUNE), running the real start-up sequence, re-hashing everything readable manifests name, "
+            "and re-running the operation.",
     "design_ref": "DESIGN.md §5 C12, §6 F19",
     "note": COMMON_NOTE + "Modelled, not verified: POSIX order = program order, rename/unlink atomic, one write(2) "
             "of a manifest or part record is all-or-nothing at a readable/unreadable level (checked on the real "
             "decoder: every proper prefix of the JSON texts the run wrote is rejected), directories, multi-part "
-            "downloads (blobs >= 100 MB), fsync/disk ordering. SHA-256 is an uninterpreted function in the "
+            "downloads (blobs >= 100 MB: exercised on the real code by kill enumeration + L2 monitors only, no "
+            "Lean model), rerun convergence of create (L1/L2 only), re-establishment of debris consistency "
+            "(PullPre) by crashes of pull (monitored on every real crash state: debris-inconsistent), "
+            "fsync/disk ordering. SHA-256 is an uninterpreted function in the "
             "theorems. Kill points are syscall entries (bodies arrive in small pieces so that each piece is one "
             "write).",
 }
@@ -40,6 +50,8 @@ THEOREMS = [
     "OllamaVerif.C12.atomic_replaced_model_kept",
     "OllamaVerif.C12.rerun_converges_partial",
     "OllamaVerif.C12.rerun_converges_pull_partial",
+    "OllamaVerif.C12.atomic_never_torn_run",
+    "OllamaVerif.C12.rerun_converges_pull",
     "OllamaVerif.C12.F19a_replaced_model_lost",
     "OllamaVerif.C12.F19b_torn_part_record_blocks_repull",
 ]
@@ -84,6 +96,9 @@ def run(ctx):
                                "atomic_part_record_writes": bool(st.get("variant_atomic_part_record", 0))}
     ctx.l1(outdir, normalize=normalize, keep_samples=3)
     ctx.classify(ctx.l2(outdir))
+    ctx.coverage["configurations"] = {"noprune_scenarios": st.get("noprune_scenarios", 0),
+                                      "multipart_body_writes_sampled_from": st.get("multipart_body_writes", 0),
+                                      "debris_records_checked": st.get("debris_records_checked", 0)}
     if not ctx.replay and st.get("cases", 0) < ctx.scale(100, 600):
         ctx.violation("too-few-crash-points", "", f"only {st.get('cases', 0)} crash points were exercised", no_input=True)
     if ctx.thorough:
@@ -93,15 +108,20 @@ def run(ctx):
         "a manifest / part record is written by ONE write(2); a crash leaves it complete or unreadable "
         "(every proper prefix of each JSON text written in this run was fed to the real decoder and rejected)",
         "kill points are syscall entries; bodies arrive in pieces of a few bytes so each piece is one write",
-        "registry is honest (serves bytes that hash to the digest); blobs < 100 MB (one part)",
+        "registry is honest (serves bytes that hash to the digest); the Lean model covers blobs < 100 MB (one part); "
+        "multi-part pulls are covered by real kill enumeration + L2 monitors only",
+        "debris of earlier pulls is consistent (PartOK/PullPre): evaluated on the real files of every crash state of a "
+        "pull (debris-inconsistent monitor)",
         "directories are not modelled (MkdirAll / PruneDirectory only add/remove empty directories)",
     ]
     return ctx.finish(
         level="proof",
         rule="crash points = every store-modifying file syscall (openat for writing, write, pwrite64, ftruncate, rename, "
              "unlink, chmod, copy_file_range, mkdir, rmdir) of one operation run in a child process on a prepared "
-             "store (2-3 models sharing layers; stores with a manifest torn by an earlier real crash and with real "
-             "partial-download debris); distinct = distinct oracle command lines (effects / crash-state / rerun)",
+             "store (2-3 models sharing layers; stores with a torn manifest and with real partial-download debris; "
+             "the same operations under OLLAMA_NOPRUNE=1; one 2-part pull of a 100 MB + 40..90 byte layer whose part 1 "
+             "completes before part 0 starts, body writes sampled first/middle/last); distinct = distinct oracle "
+             "command lines (effects / crash-state / rerun)",
         explanation="Lean theorems over the effect-list model; L1: the real syscall trace of each operation, the real "
                     "store after each kill and the real outcome of the repeated operation equal the model's effect "
                     "list, crash state and rerun result; L2: the property predicate evaluated on the real store after "
